@@ -138,3 +138,16 @@ func VerifC19RunPrefetch(c *Cache) (out []VerifC19Refresh) {
 		}
 	}
 }
+
+// VerifC19DedupKey computes the request-deduplication key the way Cache.ServeDNS
+// does for a request the edns handler has already normalised: requestScope, then
+// CacheKey{Question, CD[, Scope]}.Hash().
+func VerifC19DedupKey(p *ecs.Policy, req *dns.Msg, client netip.Addr) uint64 {
+	c := &Cache{ecsPolicy: p}
+	q := req.Question[0]
+	key := CacheKey{Question: q, CD: req.CheckingDisabled}.Hash()
+	if scope := c.requestScope(req, client); scope.IsValid() {
+		key = CacheKey{Question: q, CD: req.CheckingDisabled, Scope: scope}.Hash()
+	}
+	return key
+}
